@@ -68,6 +68,9 @@ class Real:
     def get_json(self, p):
         return json.load(open(self.path(p)))
 
+    def text(self, p):
+        return open(self.path(p), encoding='utf-8').read()
+
     def set_json(self, p, obj=None, text=None):
         with open(self.path(p), 'w') as f:
             f.write(text if text is not None else json.dumps(obj))
@@ -225,6 +228,10 @@ class Model:
 
     def get_json(self, p):
         return json.loads(json.dumps(self.world.lookup(self.path(p)).text.obj))
+
+    def text(self, p):
+        t = self.world.lookup(self.path(p)).text
+        return t if isinstance(t, str) else repr(t)
 
     def set_json(self, p, obj=None, text=None):
         node = self.world.lookup(self.path(p))
@@ -784,12 +791,41 @@ def interleave(B):
     attempt(B, 'badstart', lambda: list(a.iterindices(2, startindex=7)))
 
 
+def readme(B):
+    d = B.darr
+    a = d.asarray(B.path('a'), B.arr('x', 5, (2, 3), 'int32', 'big'), accessmode='r+')
+    B.obs.append(('r0', B.text('a/README.txt')))
+    a.append(B.arr('y', 2, (2, 3), 'int32', 'big', 50))
+    B.obs.append(('r1', B.text('a/README.txt')))
+    a.metadata['k'] = 1
+    B.obs.append(('r2', B.text('a/README.txt')))
+    a.metadata.pop('k')
+    d.truncate_array(a, 1)
+    B.obs.append(('r3', B.text('a/README.txt')))
+    for i, (nt, at) in enumerate([('float16', ()), ('complex64', (2,)), ('uint64', ()), ('int8', (1, 2, 3)),
+                                  ('complex128', ()), ('float32', (4,)), ('int64', ())]):
+        d.asarray(B.path(f't{i}'), B.arr(f't{i}', 3, at, nt, 'little' if i % 2 else 'big'))
+        B.obs.append((f't{i}', B.text(f't{i}/README.txt')))
+    r = d.asraggedarray(B.path('r'), [B.arr(f's{i}', i % 3, (2,), 'float64', 'little', 10 * i) for i in range(7)],
+                        accessmode='r+')
+    B.obs.append(('rr0', B.text('r/README.txt'), B.text('r/values/README.txt'), B.text('r/indices/README.txt')))
+    r.append(B.arr('s9', 4, (2,), 'float64', 'little', 99))
+    B.obs.append(('rr1', B.text('r/README.txt'), B.text('r/indices/README.txt')))
+    d.truncate_raggedarray(r, 5)
+    B.obs.append(('rr2', B.text('r/README.txt')))
+    c = d.create_raggedarray(B.path('c'), atom=(), dtype='int16')
+    B.obs.append(('rc', B.text('c/README.txt'), B.text('c/indices/README.txt')))
+    for lang in ('matlab', 'R', 'julia', 'idl', 'mathematica', 'maple', 'scilab', 'numpymemmap', 'darr'):
+        B.obs.append(('rl' + lang, r.readcode(lang)))
+    B.obs.append(('langs', list(a.readcodelanguages), list(r.readcodelanguages)))
+
+
 SCENARIOS = {f.__name__: f for f in [array_basic, array_append, array_truncate, array_assign,
-                                        array_failappend, ragged_basic, ragged_fail, readonly, metadata, baddescr, foreign, datadir, creation, copying, interleave]}
+                                        array_failappend, ragged_basic, ragged_fail, readonly, metadata, baddescr, foreign, datadir, creation, copying, interleave, readme]}
 
 
 def run(names, stub_readme=True):
-    D = loader.load(env=True, stub_readme=stub_readme)
+    D = loader.load(env=True, stub_readme=stub_readme, pkg=None if stub_readme else 'darrsym_readme')
     mismatches = []
     count = 0
     for nm in names:
